@@ -1581,7 +1581,9 @@ class SourceCatalog:
         nan_mask = (np.isnan(centroid_quad[:, 0])
                     | np.isnan(centroid_quad[:, 1]))
         if np.any(nan_mask):
-            centroid_quad[nan_mask] = self.cutout_centroid[nan_mask]
+            # cutout_centroid has shape (2,) for a scalar catalog
+            cutout_centroid = np.atleast_2d(self.cutout_centroid)
+            centroid_quad[nan_mask] = cutout_centroid[nan_mask]
 
         return centroid_quad
 
@@ -3522,12 +3524,12 @@ class SourceCatalog:
         """
         semimajor_sig = self.semimajor_sigma.value
         kron_radius = self.kron_radius.value
-        radius = semimajor_sig * kron_radius * self.kron_params[0]
+        # always an array, also for a scalar catalog
+        radius = np.atleast_1d(semimajor_sig * kron_radius
+                               * self.kron_params[0])
         mask = radius == 0
         if np.any(mask):
             radius[mask] = self.kron_params[2]
-        if self.isscalar:
-            radius = np.array([radius])
         return radius
 
     @staticmethod
